@@ -567,7 +567,7 @@ class PyHarness:
             raw = self.proc.ask_raw(line, timeout)
             if raw is None:
                 why = self.proc.last_death or ""
-                return {"r": "timeout" if why == "timeout" else "abort", "m": why}
+                return {"r": "timeout" if str(why).startswith("timeout") else "abort", "m": why}
             try:
                 return json.loads(raw)
             except Exception:
